@@ -524,3 +524,139 @@ class CopyEqualsByKind(Contract):
 
 
 CONTRACTS = CONTRACTS + [CopyEqualsByKind]
+
+
+class GetAttributesStub(Contract):
+    """call summary of utils.get_attributes inside copy_to_parent: the attribute dictionary of the
+    entity (or of its type), as prepared by the contract's setup; the omit list is recorded."""
+    target = "geoh5py/shared/utils.py::get_attributes"
+    variant = "summary-for-copy_to_parent"
+    symbolic = False
+    props = ()
+
+    def apply(self, I, args, kwargs):
+        ent = args[0]
+        omit = kwargs.get("omit_list", args[1] if len(args) > 1 else ())
+        I.event("get_attributes", entity=ent, omit=[x for x in getattr(omit, "items", omit)])
+        return I.ctx.env["attrs_of"](ent, kwargs.get("attributes", args[2] if len(args) > 2 else None))
+
+
+class ClearArraysStub(Contract):
+    target = "geoh5py/shared/utils.py::clear_array_attributes"
+    variant = "summary-for-copy_to_parent"
+    symbolic = False
+    props = ()
+
+    def apply(self, I, args, kwargs):
+        I.event("clear_array_attributes", entity=args[0])
+        return None
+
+
+class CopyToParent(Contract):
+    """Workspace.copy_to_parent, the one function every copy goes through: the new entity is created
+    in the *target* parent's workspace from the source's attributes without its identity (uid, type
+    object, stored flag) and without what the copy must build for itself (property groups, the
+    depth channel); the identifier is the source's exactly when it is free in the target; the
+    metadata handed over is a copy; keyword overrides replace existing attributes only."""
+    target = "geoh5py/workspace/workspace.py::Workspace.copy_to_parent"
+    props = ("C12", "C06")
+    lenient = True
+    uses = (GetAttributesStub, ClearArraysStub)
+
+    def cases(self):
+        return [(kind, free, target, clear) for kind in ("object", "data", "drillhole") for free in (True, False) for target in ("group", "workspace") for clear in (False, True)] + [("object", True, "not-a-container", False)]
+
+    def setup(self, ctx):
+        from geoh5py.data import FloatData
+        from geoh5py.groups import ContainerGroup
+        from geoh5py.objects import Drillhole, Points
+        from geoh5py.workspace import Workspace
+
+        kind, free, target, clear = ctx.case
+        cls = {"object": Points, "data": FloatData, "drillhole": Drillhole}[kind]
+        me = Opaque("self", cls=Workspace)
+        ent = Opaque("entity", cls=cls)
+        ent.attrs["uid"] = Opaque("entity.uid")
+        ent.attrs["entity_type"] = Opaque("entity.entity_type")
+        md = PDict({"info": PDict({"nested": PList([1, 2, 3])})})
+        attrs = {"name": "source", "metadata": md, "property_groups": PList([Opaque("pg")]), "vertices": Opaque("vertices"), "visible": False}
+        if kind == "drillhole":
+            attrs["depths"] = Opaque("source-DEPTH-entity")
+        ctx.env["attrs_of"] = lambda e_, base: PDict({**(getattr(base, "items", base) or {}), **attrs}) if e_ is ent else PDict({"name": "type-name", "uid": Opaque("type.uid")})
+        tws = Opaque("target-workspace", cls=Workspace)
+        ge = Opaque("target.get_entity")
+        taken_by = Opaque("someone-else")
+        ctx.path.assume(~taken_by.none_var())
+        ge.maybe_method = lambda I, a, kw: (I.event("lookup", uid=a[0]), PList([None if free else taken_by]))[1]
+        tws.attrs["get_entity"] = ge
+        new = Opaque("new-entity", cls=cls)
+        ce = Opaque("target.create_entity")
+        ce.maybe_method = lambda I, a, kw: (I.event("create_entity", cls=a[0] if a else None, kw=dict(kw)), new)[1]
+        tws.attrs["create_entity"] = ce
+        root = Opaque("target-root", cls=ContainerGroup)
+        root.attrs["workspace"] = tws
+        tws.attrs["root"] = root
+        tws.attrs["workspace"] = tws
+        if target == "group":
+            parent = Opaque("parent-group", cls=ContainerGroup)
+            parent.attrs["workspace"] = tws
+        elif target == "workspace":
+            parent = tws
+        else:
+            parent = Opaque("a-data-entity", cls=FloatData)
+        own_ce = Opaque("self.create_entity")
+        own_ce.maybe_method = lambda I, a, kw: (I.event("create_in_source_workspace"), Opaque("wrong"))[1]
+        me.attrs["create_entity"] = own_ce
+        own_ge = Opaque("self.get_entity")
+        own_ge.maybe_method = lambda I, a, kw: (I.event("lookup_in_source_workspace"), PList([None]))[1]
+        me.attrs["get_entity"] = own_ge
+        me.attrs["find_entity"] = own_ge
+        ctx.env.update(ent=ent, md=md, parent=parent, root=root, new=new, attrs=attrs)
+        return [me, ent, parent], {"clear_cache": clear, "visible": True, "not_an_attribute": 5}
+
+    def post(self, ctx, result):
+        e = ctx.env
+        kind, free, target, clear = ctx.case
+        ev = ctx.path.events
+        if target == "not-a-container":
+            ctx.oblige("a-parent-that-cannot-hold-children-is-refused", False, note="copy_to_parent returned normally for a data entity given as parent")
+            return
+        made = [p for k, p in ev if k == "create_entity"]
+        ctx.oblige("created-once-in-the-target-parents-workspace", len(made) == 1 and not [1 for k, p in ev if k == "create_in_source_workspace"] and result is e["new"])
+        if len(made) != 1:
+            return
+        kw = made[0]["kw"]
+        ek, tk = kw.get("entity"), kw.get("entity_type")
+        ok = isinstance(ek, PDict) and isinstance(tk, PDict)
+        ctx.oblige("entity-and-type-attributes-are-handed-over", ok)
+        if not ok:
+            return
+        ei = ek.items
+        ctx.oblige("identifier-kept-exactly-when-free-in-the-target", (ei.get("uid") is e["ent"].attrs["uid"]) if free else (ei.get("uid") is None),
+                   note=f"uid handed to the constructor: {ei.get('uid')!r}")
+        looks = [p for k, p in ev if k == "lookup"]
+        ctx.oblige("freedom-is-decided-by-a-lookup-in-the-target-workspace", len(looks) >= 1 and all(p["uid"] is e["ent"].attrs["uid"] for p in looks) and not [1 for k, p in ev if k == "lookup_in_source_workspace"])
+        ctx.oblige("the-copy-hangs-under-the-requested-parent", ei.get("parent") is (e["root"] if target == "workspace" else e["parent"]))
+        ctx.oblige("property-groups-and-depth-channel-are-not-handed-over", "property_groups" not in ei and "depths" not in ei,
+                   note="the copy would point at property groups / the DEPTH data of its source")
+        m = ei.get("metadata")
+        deep = isinstance(m, PDict) and m is not e["md"] and isinstance(m.items.get("info"), PDict) and m.items["info"] is not e["md"].items["info"]
+        deep = deep and isinstance(m.items["info"].items.get("nested"), PList) and m.items["info"].items["nested"] is not e["md"].items["info"].items["nested"] and m.items["info"].items["nested"].items == [1, 2, 3]
+        ctx.oblige("metadata-is-a-deep-copy-with-the-same-content", deep, note="the copy's metadata (or a nested part of it) is the very object its source holds: edits of one show in the other")
+        ctx.oblige("other-attributes-are-the-sources", ei.get("name") == "source" and ei.get("vertices") is e["attrs"]["vertices"])
+        ctx.oblige("keyword-overrides-replace-existing-attributes-only", ei.get("visible") is True and "not_an_attribute" not in ei and "clear_cache" not in ei)
+        omits = [p for k, p in ev if k == "get_attributes" and p["entity"] is e["ent"]]
+        ctx.oblige("identity-fields-are-left-out-of-the-attribute-collection", len(omits) == 1 and {"_uid", "_entity_type", "_on_file"} <= set(omits[0]["omit"]),
+                   note="the copy would be built with its source's identifier object, type object or stored flag")
+        from geoh5py.data import Data, FloatData
+
+        ctx.oblige("data-go-through-the-data-dispatcher-others-through-their-own-class", made[0]["cls"] is (Data if kind == "data" else e["ent"].cls))
+        cleared = [p["entity"] for k, p in ev if k == "clear_array_attributes"]
+        ctx.oblige("caches-released-exactly-on-request", (len(cleared) == 2 and any(x is e["ent"] for x in cleared) and any(x is e["new"] for x in cleared)) if clear else not cleared)
+
+    def post_raises(self, ctx, sig):
+        kind, free, target, clear = ctx.case
+        ctx.oblige("only-an-unsuitable-parent-is-refused", target == "not-a-container" and sig.exc_class is ValueError and not [1 for k, p in ctx.path.events if k == "create_entity"], kind="post-exc")
+
+
+CONTRACTS = CONTRACTS + [GetAttributesStub, ClearArraysStub, CopyToParent]
